@@ -634,6 +634,20 @@ func writeEvidence(prop, tier string, seed int, frs []*FuncResult, all []*OblRes
 		explanation = pd.Explanation
 		assumptions = append(assumptions, pd.Assumptions...)
 	}
+	// the level claimed for the property and the statement of what is (not) covered live in /verif/props.json
+	if data, err := os.ReadFile(filepath.Join(verifDir, "props.json")); err == nil {
+		var props map[string]struct {
+			Category string `json:"category"`
+			Text     string `json:"text"`
+			Note     string `json:"note"`
+		}
+		if json.Unmarshal(data, &props) == nil {
+			if pd, ok := props[prop]; ok && pd.Category != "" {
+				level = pd.Category
+				explanation = "claimed: " + pd.Text + " -- assumed / not covered: " + pd.Note
+			}
+		}
+	}
 	if level == "proof" && (discharged != obligations || obligations == 0) {
 		level = "other"
 		explanation = "not every obligation was discharged on this run (see undecided / violations); the run does not count as a proof. " + explanation
